@@ -59,6 +59,8 @@ ATTR = [
     (r"^start-not-scheduled$", ["C01", "C12"]),
     (r"^second-start$", ["C02"]),
     (r"^window-full$", ["C07"]),
+    # a nested scheduler is one job of its parent, and takes one slot of its window
+    (r"^window-full-nested$", ["C07", "C10"]),
     (r"^start-parent-aborted-(\w+)$", "cause"),
     (r"^start-parent-not-main$", ["C01"]),
     (r"^start-after-cancel$", ["C05", "C08", "C09"]),
@@ -141,6 +143,10 @@ def attribute(code):
         # the refused event belongs to a forever job, or to a job inside a forever nested scheduler
         code = code[:-len("-under-forever")]
         extra = ["C09"]
+    if code.endswith("-in-window"):
+        # the nested scheduler gives its slot of the parent's window back while its jobs still run
+        code = code[:-len("-in-window")]
+        extra = extra + ["C07"]
     if code.endswith("-leaving-forever-jobs"):
         code = code[:-len("-leaving-forever-jobs")]
         extra = extra + ["C09"]
